@@ -311,7 +311,7 @@ def selftest_plans(seed, n):
 def run(seed, tier, budget_s):
     batch = core.Batch(PID, seed, tier, LEVEL)
     quick = tier == 'quick'
-    n_bases = 2 if quick else 20
+    n_bases = 2 if quick else 10
     idx = [0]
 
     def nxt():
@@ -352,7 +352,7 @@ def run(seed, tier, budget_s):
         extra.append(to_server(src[0]))
         extra.append(to_server(to_transport(src[-1], 'textgears')))
     else:
-        for b in src:
+        for b in src[::2]:
             extra.append(to_transport(b, trng.choice(['my', 'textgears'])))
         for b in src[::5]:
             extra.append(to_server(b))
